@@ -118,10 +118,9 @@ func (a *Adversary) forgeOnTip() *blockchain.Block {
 	n := a.Shadow
 	var forged *blockchain.Block
 	a.S.Step(n, "adv forge", func() {
-		// the adversary does not care about its own slashing protection
-		for _, v := range n.Keys {
-			n.GeneratorDB.Del(append([]byte{0, 0}, v.Address...))
-		}
+		// (the shadow's generator keeps its own record of what it signed, so that by default the adversary's headers
+		// carry a truthful maxHeightGenerated and are accepted; deviations are made deliberately afterwards. Each head
+		// has its own record: two heads on two branches equivocate.)
 		before := n.Exec.VerifQueueLen()
 		n.Gen.VerifForge()
 		if n.Exec.VerifQueueLen() == before {
